@@ -10,7 +10,6 @@ import (
 	xchacha "golang.org/x/crypto/chacha20poly1305"
 	"golang.org/x/crypto/curve25519"
 
-
 	"github.com/brutella/hc/hap/pair"
 	"github.com/brutella/hc/util"
 
@@ -39,7 +38,12 @@ func Harness_C04_q_pair_verify_talk() {
 	// Earlier in the life of this process an accessory of the same name may have run with a
 	// different setup code (the code was changed, or another instance was created): nothing
 	// of it may leak into this accessory's pairing.
-	if verif.Choice("earlier-accessory", 2) == 1 {
+	// request bodies arrive in one piece, or in two (split inside the first TLV value / inside
+	// a later one); the split runs are made without the other pre-state variations
+	eeBodySplit = []int{0, 3, 40}[verif.Choice("body-split", 3)]
+	defer func() { eeBodySplit = 0 }()
+	plain := eeBodySplit != 0
+	if !plain && verif.Choice("earlier-accessory", 2) == 1 {
 		verif.Fact("earlier-accessory", "same name, other setup code")
 		w0 := eeNewWorld()
 		w0.dev.pin = "111-22-333"
@@ -57,7 +61,11 @@ func Harness_C04_q_pair_verify_talk() {
 	// storage contents before pairing: nothing, a stale pairing under the same identifier
 	// with another key (the controller was reset and pairs again), or somebody else's pairing
 	stalePub, _, _ := ed25519.GenerateKey(nil)
-	switch verif.Choice("storage", 3) {
+	storageKind := 0
+	if !plain {
+		storageKind = verif.Choice("storage", 3)
+	}
+	switch storageKind {
 	case 1:
 		verif.Fact("storage", "stale pairing with the same identifier")
 		w.db.SaveEntity(db.NewEntity(string(ctrlID), stalePub, nil))
@@ -68,7 +76,11 @@ func Harness_C04_q_pair_verify_talk() {
 
 	// what happened on this connection before: nothing, a pair-setup attempt with a wrong
 	// setup code (answered with an error), or a message out of order
-	switch verif.Choice("earlier-attempt", 3) {
+	attemptKind := 0
+	if !plain {
+		attemptKind = verif.Choice("earlier-attempt", 3)
+	}
+	switch attemptKind {
 	case 1:
 		verif.Fact("earlier-attempt", "wrong setup code")
 		r0, _ := eePost(w.setup, "/pair-setup", remote, eeTLV(pair.TagPairingMethod, byte(0), pair.TagSequence, byte(1)))
